@@ -436,7 +436,16 @@ func (x *c11World) check() string {
 		for name, e := range got {
 			under := want[name]
 			if strings.HasSuffix(under, ".incomplete") {
-				continue // a partial upload is shown but need not be addressable
+				// a partial upload is shown but need not be addressable; when get-info does answer for it (a file without
+				// resource fork), the size it shows agrees with the list and with the bytes on disk
+				final := strings.TrimSuffix(under, ".incomplete")
+				if inf := x.req(ref.Tx{Type: ref.TGetFileInfo, Fields: append(pathFields(d), ref.FS(ref.FFileName, e.Name))}); m.ent[under] != "<dir>" && inf != nil && inf.Err == 0 && !m.exists(sideFiles(final)[1]) && !m.exists(final) {
+					is, _ := inf.Get(ref.FFileSize)
+					if len(is) != 4 || int(binary.BigEndian.Uint32(is)) != len(m.ent[under]) || int(e.Size) != len(m.ent[under]) {
+						x.fail("views/size-disagrees-for-a-partial-upload", fmt.Sprintf("%q: list %d, info %x, bytes on disk %d", name, e.Size, is, len(m.ent[under])))
+					}
+				}
+				continue
 			}
 			kind := m.ent[under]
 			target := under
